@@ -5,6 +5,8 @@ On success writes /verif/seeded/<id><v>/{patch.diff, demo file, meta.json}. The 
 import json, os, re, shutil, subprocess, sys
 ENV = dict(os.environ, GOFLAGS="-mod=mod", GOPROXY="off", GOSUMDB="off", GOTOOLCHAIN="local")
 WT = "/tmp/seedwt"
+MUT = os.environ.get("MUTROOT", "/tmp/mut")           # where the sub-agents delivered
+SUFFIX = {"a": os.environ.get("SEED_A", "a"), "b": os.environ.get("SEED_B", "b"), "c": os.environ.get("SEED_C", "c")}   # stored variant letter
 
 
 def sh(cmd, cwd=None, timeout=900):
@@ -20,12 +22,13 @@ def suite(cwd):
 
 
 def confirm(pid, v):
-    src = "/tmp/mut/out/%s/%s" % (pid, v)
+    src = "%s/out/%s/%s" % (MUT, pid, v)
     howto = open(os.path.join(src, "HOWTO.txt")).read()
+    howto = re.sub(r"\$\{?W\}?|\$\{?WT\}?", "%s/%s" % (MUT, pid), howto)
     demo_files = [f for f in os.listdir(src) if f.endswith(".go")] or ["demo"]
     OVERRIDE = {"C11": ("demo_test.go", "c11demo/demo_test.go", "go test -vet=off -count=1 ./c11demo/"),
                 "C12": ("demo_test.go", "c12demo/demo_test.go", "go test -vet=off -count=1 ./c12demo/")}
-    m = re.search(r"cp\s+(?:-r\s+)?/tmp/mut/out/%s/%s/(\S+)\s+(\S+)" % (pid, v), howto)
+    m = re.search(r"cp\s+(?:-r\s+)?(?:%s/out/%s/%s/)?(\S+)\s+(\S+)" % (re.escape(MUT), pid, v), howto)
     g = re.search(r"(go (?:test|run)[^\n#]*)", howto)
     if pid in OVERRIDE:
         class M:
@@ -36,9 +39,9 @@ def confirm(pid, v):
     if not m or not g:
         return {"ok": False, "why": "could not parse HOWTO"}
     demo_src, demo_dst = m.group(1), m.group(2)
-    demo_dst = re.sub(r"^/tmp/mut/%s/" % pid, "", demo_dst).lstrip("./")
+    demo_dst = re.sub(r"^%s/%s/" % (re.escape(MUT), pid), "", demo_dst).lstrip("./")
     testcmd = g.group(1).strip()
-    testcmd = re.sub(r"/tmp/mut/%s" % pid, WT, testcmd)
+    testcmd = re.sub(r"%s/%s" % (re.escape(MUT), pid), WT, testcmd)
     sh("git -C /repo worktree remove --force %s; rm -rf %s" % (WT, WT))
     rc, o = sh("git -C /repo worktree add -q --detach %s HEAD" % WT)
     res = {"ok": False, "demo_dst": demo_dst, "testcmd": testcmd}
@@ -73,7 +76,7 @@ def confirm(pid, v):
         res["suite_fails_with_patch"] = fails
         res["ok"] = res["demo_before"] == "pass" and res["demo_after"] == "fail" and [f for f in fails if not f.startswith("TestEnum_String")] == []
         if res["ok"]:
-            out = "/verif/seeded/%s%s" % (pid, v)
+            out = "/verif/seeded/%s%s" % (pid, SUFFIX.get(v, v))
             os.makedirs(out, exist_ok=True)
             shutil.copy(patch, out + "/patch.diff")
             sh("cp -r %s/%s %s/" % (src, demo_src, out))
@@ -82,7 +85,7 @@ def confirm(pid, v):
                 meta = json.load(open(src + "/meta.json"))
             except Exception:
                 meta = {}
-            meta.update({"property": pid, "variant": v, "confirmed_on_repo_head": subprocess.check_output(["git", "-C", "/repo", "rev-parse", "--short", "HEAD"]).decode().strip(),
+            meta.update({"property": pid, "variant": SUFFIX.get(v, v), "confirmed_on_repo_head": subprocess.check_output(["git", "-C", "/repo", "rev-parse", "--short", "HEAD"]).decode().strip(),
                          "patch_apply": res["apply"], "demo_placed_at": demo_dst, "demo_cmd": testcmd,
                          "confirmed": {"demo_without_patch": "pass", "demo_with_patch": "fail", "suite_with_patch": "only TestEnum_String fails (as baseline)"}})
             json.dump(meta, open(out + "/meta.json", "w"), indent=1)
